@@ -129,8 +129,19 @@ def c14(ctx):
     else:
         from .. import tokens as _tokens
         rep.analysed(pl_)
-        ms = [bi for bi, t in pl_.calls() if callee_def(t) == "frontend::parser::Parser::<'a>::match_and_consume"
-              and (_tokens.resolve_token_set(F, pl_, t["args"][1]) or set()) >= {"Plus", "Minus", "Multiply", "Divide"}]
+        MC_ = "frontend::parser::Parser::<'a>::match_and_consume"
+
+        def op_matches(b_):
+            return [bi for bi, t in b_.calls() if callee_def(t) == MC_ and (_tokens.resolve_token_set(F, b_, t["args"][1]) or set()) >= {"Plus", "Minus", "Multiply", "Divide"}]
+        ms = op_matches(pl_)
+        if not ms:
+            # the match may live in a private helper that does nothing else: one such match on every path, handed back
+            for bi, t in pl_.calls():
+                h = F.fn(callee_def(t) or "")
+                if h is not None and h.mir and h.file == pl_.file and h.kind != "closure" and t["callee"].get("trait") is None:
+                    hm = op_matches(h)
+                    if len(hm) == 1 and not common.path_to_return_avoiding(h, hm, through_errors=True) and hm[0] in __import__("sa.progress", fromlist=["deep_sources"]).deep_sources(h, {"copy": {"l": 0, "p": []}}):
+                        ms.append(bi)
         vals = [bi for bi, t in pl_.calls() if (callee_def(t) or "").endswith(("::parse_toplevel_expression_list", "::parse_expression_list", "::parse_expression"))]
         ok, why = True, ""
         if len(ms) != 1:
